@@ -46,7 +46,7 @@ FUNC_KINDS_T = {"NEG", "NOT", "PAREN", "OR", "AND", "CMP", "ADD", "MUL"}
 def consts(**kw):
     c = dict(MaxOps=3, KindsM=ALL_KINDS, CmpOpsM={1}, LogSpM={2}, WithFunc=False, WithList=False, TypedM=False,
              Ladder="lark", AndOrParens=True, CmpParens=True, OuterRule="matched", DenoteLadder="ms",
-             AllCmpOps=set(exprtok.CMP_OPS), RootCmpOps={i for i in exprtok.CMP_OPS if i <= 19}, AllLogSp={1, 2, 3}, AtomIds=set(exprtok.ATOMS), ListIds=set(exprtok.LISTS), TrickyMaxOps=3, **exprtok.TRICKY,
+             AllCmpOps=set(exprtok.CMP_OPS), RootCmpOps={i for i in exprtok.CMP_OPS if i <= 19}, AllLogSp={1, 2, 3}, AtomIds=set(exprtok.ATOMS), ListIds=set(exprtok.LISTS), TrickyMaxOps=3, WideNums=exprtok.WIDE_NUMS, **exprtok.TRICKY,
              FuncIds=set(exprtok.FUNCS), MaxWalkOps=12, RootKindsS=set())
     c.update(kw)
     return c
@@ -307,7 +307,7 @@ class Batch:
         if tr.get("ops", 0) <= self.all_hosts_upto or idx % 10 == 0:
             return list(range(n))
         a = (idx + self.ck.seed) % n
-        k = max(1, self.per_tree - 1) if tr.get("lm") in (3, 4, 5) and self.tag_origin != "walks" else self.per_tree
+        k = max(1, self.per_tree - 1) if tr.get("lm") in (3, 4, 5, 6) and self.tag_origin != "walks" else self.per_tree
         return sorted({(a + j * (1 + (idx // n) % (n - 1))) % n for j in range(k)})
 
     def process(self, trees, origin, part):
